@@ -89,6 +89,31 @@ def rows_of(res):
     return out
 
 
+def norm(v):
+    return json.loads(json.dumps(v, sort_keys=True, default=str))
+
+
+class Only:
+    """--replay PATH: run the same code, restricted to the recorded case."""
+
+    def __init__(self, path):
+        self.rp = None
+        if path:
+            with open(path) as f:
+                self.rp = json.load(f).get('replay') or {}
+            self.rp.setdefault('kind', 'interop')
+            print('replaying', {k: v for k, v in self.rp.items()
+                                if k in ('kind', 'row', 'kt', 'case',
+                                         'comment_class')})
+
+    def kind(self, *kinds):
+        return self.rp is None or self.rp.get('kind') in kinds
+
+    def row(self, kind, row):
+        return self.rp is None or (self.rp.get('kind') == kind and
+                                   norm(self.rp.get('row')) == norm(row))
+
+
 def comment_of(k):
     return k.get_comment_bytes() if k.has_comment() else None
 
@@ -102,11 +127,12 @@ def main(ctx):
     ctx.level = 'exploration'
     quick = ctx.tier == 'quick'
     rnd = random.Random(ctx.seed + 15)
+    only = Only(ctx.replay_path)
     kts = D.available_kts()
     ctx.require(len(kts) >= 5, f'too few key types: {kts}')
     bcrypt = bool(D.BCRYPT)
     mb = 3 if quick else 4
-    md = 4 if quick else 5
+    md = 4 if quick else 6
 
     # ---- 1. TLC -------------------------------------------------------------
     jobs = {
@@ -157,14 +183,17 @@ def main(ctx):
     seen_full = set()
     for idx, (row, pexp, pimp) in enumerate(rows['priv']):
         kt = row['kt']
-        if kt not in kts:
+        if kt not in kts or not only.row('priv', row):
             continue
-        if row['fmt'] == 'pkcs1-pem' and row['pass'] and quick and \
+        if only.rp is not None:
+            pass
+        elif row['fmt'] == 'pkcs1-pem' and row['pass'] and quick and \
                 (row['hash'], row['pbe']) not in (('sha256', 2), ('md5', 1),
                                                   ('bogus', 3)):
             continue        # hash / version are not used by PKCS#1
         if row['fmt'] == 'pkcs1-pem' and row['pass'] and not quick and \
-                row['hash'] not in ('sha256', 'md5', 'bogus'):
+                row['hash'] not in ('sha256', 'md5', 'bogus') and \
+                only.rp is None:
             continue
         # a few imports per format run the full RSA key validation
         full = kt == 'rsa' and pimp == 'ok' and \
@@ -226,14 +255,19 @@ def main(ctx):
             elif o['export'] != pexp:
                 ctx.divergence(f'priv: model says {pexp}, code raises '
                                f'{o["export"]}: {case}')
-    ctx.require(n_ok > 100, f'only {n_ok} private round trips succeeded')
+    ctx.require(n_ok > 100 or only.rp is not None,
+                f'only {n_ok} private round trips succeeded')
 
     # ---- 2b. public table ---------------------------------------------------
     cmt_classes = list(D.COMMENTS)
     for idx, (row, pexp, pimp) in enumerate(rows['pub']):
         if not row['kt'].startswith('sk-') and row['kt'] not in kts:
             continue
+        if not only.row('pub', row):
+            continue
         for cc in cmt_classes:
+            if only.rp is not None and cc != only.rp.get('comment_class'):
+                continue
             o = D.run_pub_row(row, cc)
             case = dict(kt=row['kt'], fmt=row['fmt'], comment=cc)
             ctx.count(('pub', row['kt'], row['fmt'], cc),
@@ -281,8 +315,10 @@ def main(ctx):
         for part, public_list in (('scanpriv', False), ('scanpub', True)):
             allrows = rows[part]
             for idx, (row, perr, pkeys) in enumerate(allrows):
+                if not only.row(part, row):
+                    continue
                 blocks = row['blocks']
-                salt = idx
+                salt = idx if only.rp is None else only.rp.get('salt', idx)
                 blob, exps = D.build_file(bm, row, salt, public_list)
                 pw = D.SCAN_PW if row['pass'] else None
                 status, keys = D.run_scan(path, blob, public_list, pw,
@@ -344,7 +380,13 @@ def main(ctx):
 
     # ---- 2d. chains -------------------------------------------------------------
     chains = rows['chain']
-    if quick and len(chains) > 2000:
+    if only.rp is not None:
+        chains = [c for c in chains if only.kind('chain') and
+                  c[0]['kt'] == only.rp.get('kt') and
+                  c[0]['cmt'] == only.rp.get('comment_class') and
+                  norm(c[1][:len(only.rp['hist'])]) == norm(only.rp['hist'])
+                  ][:1]
+    elif quick and len(chains) > 2000:
         rnd.shuffle(chains)
         chains = chains[:2000]
     runner = D.ChainRunner()
@@ -405,11 +447,12 @@ def main(ctx):
     ctx.traces_validated(len(chains))
 
     # ---- 3. independent readers / writers ---------------------------------------
-    scr = D.Scratch(tlc.WORK, 'c15_interop_')
-    try:
-        interop(ctx, D, scr, kts, quick, rnd, kf_sig)
-    finally:
-        scr.close()
+    if only.kind('interop'):
+        scr = D.Scratch(tlc.WORK, 'c15_interop_')
+        try:
+            interop(ctx, D, scr, kts, quick, rnd, kf_sig)
+        finally:
+            scr.close()
 
     import asyncssh
     ctx.notes.append(f'asyncssh under test: {asyncssh.__file__}; '
@@ -689,7 +732,7 @@ def interop(ctx, D, scr, kts, quick, rnd, kf_sig):
                 if comment_of(pub) != b'made by keygen':
                     ctx.violation(kf_sig('interop', step='comment', **case),
                                   f'comment of ssh-keygen public key read as '
-                                  f'{comment_of(pub)!r}', {'case': case})
+                                  f'{comment_of(pub)!r}', {'kind': 'interop', 'case': case})
                 if not pw:
                     try:
                         k = asyncssh.read_private_key(f)
@@ -701,7 +744,7 @@ def interop(ctx, D, scr, kts, quick, rnd, kf_sig):
                         ctx.violation(kf_sig('interop', step='import', **case),
                                       f'asyncssh does not read the private '
                                       f'key ssh-keygen wrote: {case}',
-                                      {'case': case})
+                                      {'kind': 'interop', 'case': case})
                     # convert to PEM (PKCS#1 / PKCS#8) with a passphrase
                     for m in ('PEM', 'PKCS8'):
                         f2 = scr.write('kg_conv', open(f, 'rb').read())
@@ -725,7 +768,7 @@ def interop(ctx, D, scr, kts, quick, rnd, kf_sig):
                                        **case),
                                 f'asyncssh does not read the {m} encrypted '
                                 f'key ssh-keygen wrote: {case}',
-                                {'case': case,
+                                {'kind': 'interop', 'case': case,
                                  'data': data.decode('latin-1')})
                         try:
                             D.imp_priv(data, 'not-the-pw')
@@ -733,7 +776,7 @@ def interop(ctx, D, scr, kts, quick, rnd, kf_sig):
                                 kf_sig('interop', step='passphrase', conv=m,
                                        **case),
                                 f'{m} key of ssh-keygen imported with a '
-                                f'wrong passphrase', {'case': case})
+                                f'wrong passphrase', {'kind': 'interop', 'case': case})
                         except ValueError:
                             pass
                 else:
@@ -750,7 +793,7 @@ def interop(ctx, D, scr, kts, quick, rnd, kf_sig):
                         ctx.violation(kf_sig('interop', step='equal', **case),
                                       f'encrypted OpenSSH key of ssh-keygen '
                                       f'imported as a different key',
-                                      {'case': case})
+                                      {'kind': 'interop', 'case': case})
                     elif got != want:
                         ctx.divergence(f'encrypted OpenSSH key of ssh-keygen: '
                                        f'import gives {got}, expected {want}')
@@ -762,7 +805,7 @@ def interop(ctx, D, scr, kts, quick, rnd, kf_sig):
                                 kf_sig('interop', step='pub-from-enc',
                                        **case),
                                 f'public half read from an encrypted OpenSSH '
-                                f'key differs', {'case': case})
+                                f'key differs', {'kind': 'interop', 'case': case})
                     except Exception as exc:    # pylint: disable=broad-except
                         ctx.divergence(f'public half of encrypted OpenSSH key '
                                        f'not readable: {exc}')
@@ -777,6 +820,7 @@ def certificates(ctx, D, scr, kts, quick, kf_sig, stats):
     import asyncssh
     from cryptography.hazmat.primitives import serialization as ser
     A, B = 1893456000, 1893459600
+    made = []
     for ci, kt in enumerate(kts):
         ca = D.key(kt, 1)
         subj = D.key(kts[(ci + 1) % len(kts)], 2)
@@ -794,6 +838,7 @@ def certificates(ctx, D, scr, kts, quick, kf_sig, stats):
                     principals=['host.example'], valid_after=A,
                     valid_before=B, comment=b'cert comment ' + kt.encode())
             case = dict(ca=kt, subject=kts[(ci + 1) % len(kts)], type=ctype)
+            made.append(cert)
             ctx.count(('cert-roundtrip', kt, ctype))
             for fmt in ('openssh', 'rfc4716'):
                 data = cert.export_certificate(fmt)
@@ -805,7 +850,7 @@ def certificates(ctx, D, scr, kts, quick, kf_sig, stats):
                     ctx.violation(kf_sig('cert', step='roundtrip', fmt=fmt,
                                          **case),
                                   f'certificate changed by export/import '
-                                  f'({fmt}): {case}', {'case': case})
+                                  f'({fmt}): {case}', {'kind': 'interop', 'case': case})
             line = cert.export_certificate('openssh')
             # PyCA
             try:
@@ -843,7 +888,7 @@ def certificates(ctx, D, scr, kts, quick, kf_sig, stats):
                     ctx.violation(kf_sig('cert', reader='pyca', **case),
                                   f'PyCA reads the certificate asyncssh '
                                   f'wrote differently: {case} sig_ok={sig_ok}',
-                                  {'case': case, 'line': line.decode()})
+                                  {'kind': 'interop', 'case': case, 'line': line.decode()})
             # ssh-keygen -L
             if D.SSH_KEYGEN and D.keygen_supports(kt) and \
                     D.keygen_supports(kts[(ci + 1) % len(kts)]):
@@ -853,7 +898,7 @@ def certificates(ctx, D, scr, kts, quick, kf_sig, stats):
                     ctx.violation(kf_sig('cert', reader='ssh-keygen', **case),
                                   f'ssh-keygen -L cannot read the certificate '
                                   f'asyncssh wrote: {err[:200]}',
-                                  {'case': case, 'line': line.decode()})
+                                  {'kind': 'interop', 'case': case, 'line': line.decode()})
                 else:
                     stats['keygen_read'] += 1
                     t = out.decode('utf-8', 'replace')
@@ -871,7 +916,25 @@ def certificates(ctx, D, scr, kts, quick, kf_sig, stats):
                                    **case),
                             f'ssh-keygen -L shows other fields than asyncssh '
                             f'wrote: missing {missing}: {case}',
-                            {'case': case, 'listing': t})
+                            {'kind': 'interop', 'case': case, 'listing': t})
+    # a file holding several certificates (both text formats, LF and CRLF)
+    for eol in (b'\n', b'\r\n'):
+        blob = b'# certificates\n\n' + b''.join(
+            c.export_certificate('openssh' if i % 2 else 'rfc4716')
+            for i, c in enumerate(made))
+        blob = blob.replace(b'\n', eol)
+        f = scr.write('certs.list', blob, 0o644)
+        ctx.count(('cert-list', eol))
+        try:
+            got = list(asyncssh.read_certificate_list(f))
+        except Exception as exc:            # pylint: disable=broad-except
+            got = exc
+        if got != made or [c.get_comment_bytes() for c in got] != \
+                [c.get_comment_bytes() for c in made]:
+            ctx.violation(kf_sig('cert', step='list', eol=eol.decode()),
+                          f'file with {len(made)} certificates read back as '
+                          f'{got if isinstance(got, Exception) else len(got)}',
+                          {'kind': 'interop', 'file_hex': blob.hex()})
     # certificates made by ssh-keygen -s
     if not D.SSH_KEYGEN:
         return
@@ -922,7 +985,7 @@ def certificates(ctx, D, scr, kts, quick, kf_sig, stats):
             ctx.violation(kf_sig('cert', step='import', **case),
                           f'asyncssh reads the certificate ssh-keygen wrote '
                           f'differently: {case}',
-                          {'case': case,
+                          {'kind': 'interop', 'case': case,
                            'line': open(certf).read()})
 
 
